@@ -302,6 +302,10 @@ func vpipe(args []string) error {
 						}
 					}
 				}
+				if reuse != nil && (h+c)%5 == 3 && reuse.Strings != nil {
+					reuse.Reset() // the documented way to empty an object before it is used again
+					names[len(names)-1] += "+Reset"
+				}
 				if reuse != nil {
 					last = simdjson.VerifState(reuse)
 					if last.HasInternal && last.ChanLen != 0 {
